@@ -15,6 +15,9 @@ func TestMain(m *testing.M) { kit.Main(m) }
 // pod (anti-)affinity, node pools, topologies with required / preferred levels on groups and sub-groups.
 func profile() sim.Profile {
 	pf := sim.DefaultProfile()
+	// nodes are relabelled, cordoned and uncordoned between cycles
+	pf.PMutations = 3
+	pf.MutationKinds = []string{"node-label", "node-unschedulable"}
 	pf.MaxNodes = 6
 	pf.MaxGroups = 8
 	pf.PConstraints = 7
